@@ -18,6 +18,7 @@ RULE = (
     "P F^T / det F recomputed from the field, quadrature means in Voigt order, explicit sums over boundary points. "
     "Non-trivial: non-constant field, >= 2 cells sharing points, tensor order >= 1."
     " family 'saved-stress': the Cauchy stress written by tools.save; stresses are requested after an in-place field change in a drawn order; moments of plane problems."
+    ' Family view-2d (bodies on plain two-component fields: Voigt means, von Mises stress of the tensor embedded in 3-d); cell means on the disconnected mesh; force of fields with another number of components; Fortran-ordered values; a point without cells.'
 )
 ASSUMPTIONS = [
     "projection is generated only for regions whose rule makes the mass matrix regular (documented: triangle / tetra need order 2, quadratic simplices and MINI order 5)",
